@@ -20,8 +20,8 @@ PC = 'pydl/pcomp.py'
 IO = 'pydl/photoop/sdssio.py'
 
 
-def m(id, prop, kind, rel, edits, expect=None):
-    return {'id': id, 'prop': prop, 'kind': kind, 'rel': rel, 'edits': edits, 'expect': expect}
+def m(id, prop, kind, rel, edits, expect=None, all=False):
+    return {'id': id, 'prop': prop, 'kind': kind, 'rel': rel, 'edits': edits, 'expect': expect, 'all': all}
 
 
 CATALOGUE = [
@@ -166,3 +166,52 @@ CATALOGUE = [
     m('c05-no-reset', 'C05', 'break', SG, [("    multgroup[:] = 0\n", "")], 'C05.RESET'),
     m('c05-margin', 'C05', 'break', SG, [("    chunk.assign(ra, dec, linklength)", "    chunk.assign(ra, dec, 0.5*linklength)")], 'C05.MARGIN'),
 ]
+
+# ---------------------------------------------------------------------------------------------------------
+# more behaviour-preserving rewrites (kind='keep'): local renames, equivalent idioms, reordering of independent statements
+KEEPS = [
+    m('c01-keep-set-literal', 'C01', 'keep', Y, [("intTypes = set(['short', 'int', 'long'])", "intTypes = {'short', 'int', 'long'}")]),
+    m('c01-keep-rename-datum', 'C01', 'keep', Y, [("                    if self.isarray(sym, col):\n                        datum = ('{' + ' '.join([self.protect(x)\n                                 for x in self[sym][col][k]]) + '}')\n                    else:\n                        datum = self.protect(self[sym][col][k])\n                    line.append(datum)",
+                                                  "                    if self.isarray(sym, col):\n                        cell = ('{' + ' '.join([self.protect(x)\n                                for x in self[sym][col][k]]) + '}')\n                    else:\n                        cell = self.protect(self[sym][col][k])\n                    line.append(cell)")]),
+    m('c02-keep-rename-uckey', 'C02', 'keep', Y, [("                uckey = key.upper()\n                if uckey in self._symbols:", "                tabkey = key.upper()\n                if tabkey in self._symbols:"),
+                                                  ("                    for column in self._symbols[uckey]:", "                    for column in self._symbols[tabkey]:"),
+                                                  ("                            if self.isarray(uckey, column):", "                            if self.isarray(tabkey, column):"),
+                                                  ("                                self[uckey][column].append(\n                                    self.convert(uckey, column, arraydata))", "                                self[tabkey][column].append(\n                                    self.convert(tabkey, column, arraydata))"),
+                                                  ("                                self[uckey][column].append(\n                                    self.convert(uckey, column, data))", "                                self[tabkey][column].append(\n                                    self.convert(tabkey, column, data))")]),
+    m('c03-keep-rename-contents', 'C03', 'keep', Y, [("            if os.access(self.filename, os.W_OK):\n                with open(self.filename, 'a') as f:\n                    f.write(contents)\n                self._contents += contents",
+                                                     "            if os.access(self.filename, os.W_OK):\n                with open(self.filename, 'a') as handle:\n                    handle.write(contents)\n                self._contents += contents")]),
+    m('c03-keep-explicit-concat', 'C03', 'keep', Y, [("                self._contents += contents\n                self._parse()", "                self._contents = self._contents + contents\n                self._parse()")]),
+    m('c04-keep-rename-sep', 'C04', 'keep', SG, [("                sep = gcirc(ra1[i], dec1[i], ra2[k], dec2[k], units=2)/3600.0\n                if sep < matchlength:\n                    match1.append(i)\n                    match2.append(k)\n                    distance12.append(sep)",
+                                                  "                sep = gcirc(ra1[i], dec1[i], ra2[k], dec2[k], units=2)/3600.0\n                if sep < matchlength:\n                    match2.append(k)\n                    match1.append(i)\n                    distance12.append(sep)")]),
+    m('c05-keep-comment-only', 'C05', 'keep', SG, [("    firstgroup[:] = -1\n    for i in range(npoints-1, -1, -1):", "    firstgroup[:] = -1\n    # rebuild from the top\n    for i in range(npoints-1, -1, -1):")]),
+    m('c06-keep-rename-tempobjid', 'C06', 'keep', PO, [("tempobjid", "ids")], all=True),
+    m('c07-keep-rename-flagu', 'C07', 'keep', S, [("    flagu = flagname.upper()\n    flagvalue = np.uint64(0)", "    group = flagname.upper()\n    flagvalue = np.uint64(0)"),
+                                                  ("        if flagu in maskbits:\n            if bit in maskbits[flagu]:\n                flagvalue += np.uint64(2)**np.uint64(maskbits[flagu][bit])\n            else:\n                raise KeyError(\"Unknown bit label {0} for flag group {1}!\".format(bit, flagu))\n        else:\n            raise KeyError(\"Unknown flag group {0}!\".format(flagu))",
+                                                   "        if group in maskbits:\n            if bit in maskbits[group]:\n                flagvalue += np.uint64(2)**np.uint64(maskbits[group][bit])\n            else:\n                raise KeyError(\"Unknown bit label {0} for flag group {1}!\".format(bit, group))\n        else:\n            raise KeyError(\"Unknown flag group {0}!\".format(group))")]),
+    m('c07-keep-shift-form', 'C07', 'keep', S, [("flagvalue += np.uint64(2)**np.uint64(maskbits[flagu][bit])", "flagvalue += np.uint64(1) << np.uint64(maskbits[flagu][bit])")]),
+    m('c08-keep-rename-xsort', 'C08', 'keep', B, [("        xsort = x.argsort()\n        xwork = x[xsort]\n        if x2 is not None:\n            x2work = x2[xsort]", "        order = x.argsort()\n        xwork = x[order]\n        if x2 is not None:\n            x2work = x2[order]"),
+                                                  ("        yy[xsort] = yfit\n", "        yy[order] = yfit\n")]),
+    m('c09-keep-rename-hmm', 'C09', 'keep', B, [("        hmm = err[uniq(err//self.npoly)]//self.npoly\n        n = nbkpt - self.nord\n        if np.any(hmm >= n):", "        bad = err[uniq(err//self.npoly)]//self.npoly\n        n = nbkpt - self.nord\n        if np.any(bad >= n):"),
+                                                ("            inside = np.clip(hmm + jj, 0, n - 1)", "            inside = np.clip(bad + jj, 0, n - 1)")]),
+    m('c10-keep-while-reordered', 'C10', 'keep', B, [("while (error != 0 or not qdone) and iiter <= maxiter:", "while iiter <= maxiter and (error != 0 or not qdone):")]),
+    m('c11-keep-rename-combivar', 'C11', 'keep', S2, [("            combivar = np.ones(inloglam_r.shape, dtype=inloglam.dtype)\n        else:\n            combivar = objivar.ravel()", "            weights = np.ones(inloglam_r.shape, dtype=inloglam.dtype)\n        else:\n            weights = objivar.ravel()"),
+                                                      ("                                       (combivar[these] *", "                                       (weights[these] *")]),
+    m('c12-keep-range-len', 'C12', 'keep', M, [("    for i in index_list:\n        polygon.use_caps |= (1 << i)", "    for k in range(len(index_list)):\n        polygon.use_caps |= (1 << index_list[k])")]),
+    m('c12-keep-ifexp-sign', 'C12', 'keep', M, [("    if cm < 0:\n        cdist *= -1.0\n    return cdist", "    return -cdist if cm < 0 else cdist")]),
+    m('c13-keep-comment', 'C13', 'keep', TR, [("        yfit = np.dot(legarr.T, res[0:ncfit])\n    return (res, yfit)", "        # evaluate the model everywhere\n        yfit = np.dot(legarr.T, res[0:ncfit])\n    return (res, yfit)")]),
+    m('c15-keep-rename-ie', 'C15', 'keep', PC, [("        ie = evals.argsort()[::-1]\n        self._evals = evals[ie]\n        self._evecs = evecs[:, ie]", "        order = evals.argsort()[::-1]\n        self._evals = evals[order]\n        self._evecs = evecs[:, order]")]),
+    m('c15-keep-seed-not-none', 'C15', 'keep', S1, [("        if self.seed is not None:\n            np.random.seed(self.seed)", "        if not self.seed is None:\n            np.random.seed(self.seed)")]),
+    m('c16-keep-rename-j', 'C16', 'keep', S1, [("    j = allpmjdindex.argsort()\n", "    back = allpmjdindex.argsort()\n"), ("                    spplate_data[k][c] = spplate_data[k][c][j, :]", "                    spplate_data[k][c] = spplate_data[k][c][back, :]"),
+                                               ("                    spplate_data[k][c] = spplate_data[k][c][j]\n", "                    spplate_data[k][c] = spplate_data[k][c][back]\n"), ("            spplate_data[k] = spplate_data[k][j, :]", "            spplate_data[k] = spplate_data[k][back, :]"),
+                                               ("    allcoeff0 = allcoeff0[j]\n    allcoeff1 = allcoeff1[j]", "    allcoeff0 = allcoeff0[back]\n    allcoeff1 = allcoeff1[back]")]),
+    m('c17-keep-rename-k', 'C17', 'keep', MA, [("            for k in range(1, grow+1):\n                newmask[np.maximum(irejects - k, 0)] = 0\n                newmask[np.minimum(irejects + k, data.shape[0]-1)] = 0",
+                                               "            for step in range(1, grow+1):\n                newmask[np.maximum(irejects - step, 0)] = 0\n                newmask[np.minimum(irejects + step, data.shape[0]-1)] = 0")]),
+    m('c17-keep-array-equal', 'C17', 'keep', MA, [("    qdone = bool(np.all(newmask == outmask))", "    qdone = bool(np.array_equal(newmask, outmask))")]),
+    m('c18-keep-rename-xyz', 'C18', 'keep', CO, [("    x2 = x1\n    y2 = y1 * cosi + z1 * sini\n    z2 = -y1 * sini + z1 * cosi\n    mu = ac.Angle(np.arctan2(y2, x2), unit=u.radian) + munu.node\n    nu = ac.Angle(np.arcsin(z2), unit=u.radian)",
+                                                 "    xr = x1\n    yr = y1 * cosi + z1 * sini\n    zr = -y1 * sini + z1 * cosi\n    mu = ac.Angle(np.arctan2(yr, xr), unit=u.radian) + munu.node\n    nu = ac.Angle(np.arcsin(zr), unit=u.radian)")]),
+    m('c18-keep-square', 'C18', 'keep', AS, [("    sindis = np.sqrt(np.sin(deldec2)*np.sin(deldec2) +\n                     np.cos(dcrad1)*np.cos(dcrad2)*np.sin(delra2)*np.sin(delra2))", "    sindis = np.sqrt(np.sin(deldec2)**2 +\n                     np.cos(dcrad1)*np.cos(dcrad2)*np.sin(delra2)**2)")]),
+    m('c19-keep-comment', 'C19', 'keep', AS, [("    for k in range(2):\n        sigma2 = (1.0e4/vacuum)**2", "    for k in range(2):\n        # Ciddor (1996)\n        sigma2 = (1.0e4/vacuum)**2")]),
+    m('c20-keep-get-default', 'C20', 'keep', S1, [("        metadata['orig_'+r] = os.environ.get(r.upper())", "        metadata['orig_'+r] = os.environ.get(r.upper(), None)")]),
+    m('c20-keep-finally-helper-rename', 'C20', 'keep', S1, [("_restore_run_environment", "_put_back_run_environment")], all=True),
+]
+CATALOGUE = CATALOGUE + KEEPS
